@@ -15,8 +15,9 @@ CLAIM = ("For every generated accepted grammar and each of the four shells the d
          "main automaton and for every within-word automaton — resolved through shared shape functions when several within-word automata "
          "share one table set — and the registration line names the grammar's command. For bash and zsh every table the shared "
          "within-word interpreter reads must be declared by each within-word function (locals are dynamically scoped). Grammars are "
-         "biased towards several same-shaped and differently-shaped within-word expressions, descriptions, commands, `||` levels.")
-NOTE = ("Translation validation per script; the theorem decode_encode over a Lean model of the emitters is open. Trusted: vlib/tables.py "
+         "biased towards several same-shaped and differently-shaped within-word expressions, descriptions, commands, `||` levels. "
+         "Proved over a Lean model of the shared table construction (Model/Tables.lean: tables.rs and the table getters of dfa.rs as the bash emitter uses them — literal list and ids, literal / command / within-word / any-word rows, per-level candidate tables, command and within-word function numbering; compared table by table with the tables of the real bash script on every bash case of the run, on the automaton the real library dumps): tables_embed_main / tables_embed_subwords — the labelled transitions that can be read back from the tables (with the level recovered from the level tables) are exactly the transitions of the automaton, when no state has two items with one table id and different targets (C09's recorded finding is exactly a violation of that side condition: tables_need_determinism); tables_star. The text the four emitters put around the tables is not modelled.")
+NOTE = ("Translation validation per script, plus the embedding theorem over the model of the table construction (tied to the real bash tables up to the order of literal entries with equal text: the real code orders them with an unstable sort); a model of the four emitters' text is open. Trusted: vlib/tables.py "
         "(regex tokenisers of the data lines of four emitters), vh dump, the Lean string readers for fish / zsh / pwsh (transcribed from "
         "documentation). Cases in which the same literal (text and description) leaves one state at two `||` levels are C09's recorded "
         "finding and are skipped here.")
@@ -211,6 +212,24 @@ def check_case(ctx, text, sh, rec, script):
     if wmax is not None and gmax is not None and gmax < wmax:
         ctx.violation("max-level-too-small", dict(rp, what=f"max_fallback_level {gmax} < highest level {wmax}"))
         return
+    if sh == "bash":
+        # the Lean model of the table construction (Model/Tables.lean; tables_embed_main: the tables determine exactly
+        # the automaton) on the automaton of the real library vs the tables of this script, table by table
+        from .c16 import auto_wire
+        req = " ".join(["tablescmp", auto_wire(d), "&".join(auto_wire(x) for x in rec["subdfas"]) or "-",
+                        complete.tables_wire(t["main"], decoded, assoc=False),
+                        "&".join(f"{j}@{complete.tables_wire(f, decoded, assoc=False)}" for j, f in sorted(t["subs"].items())) or "-"])
+        a = core.driver_batch([req])[0]
+        if not a.startswith("ok "):
+            ctx.correspondence_breaks.append(("tables-model", {"grammar": text, "answer": a[:300]}))
+        else:
+            verdict, _, cmds = a[3:].partition(" ## ")
+            model_cmds = [norm(core.unhexs(h)) for h in cmds.split(",") if h]
+            real_cmds = [t["cmds"][k] for k in sorted(t["cmds"])]
+            ctx.count("tables-model:compared")
+            if verdict != "same" or model_cmds != real_cmds:
+                ctx.correspondence_breaks.append(("tables-model", {"grammar": text, "verdict": verdict[:1500],
+                                                                  "commands_model": model_cmds, "commands_script": real_cmds}))
     if sh in ("bash", "zsh"):
         prob = declared_tables(script, sh)
         if prob:
